@@ -588,7 +588,23 @@ func (u *Unit) execAppend(fr *Frame, c *ssa.CallCommon, args []Val, st *State, r
 		tgtOff.S, ln.S, tgtOff.S, newLen.S, row.S, kNew,
 		fits.S, tgtOff.S, tgtOff.S, newLen.S, row.S, sel(oldRow, Term{"k", "Int"}).S,
 		row.S), "Bool"})
+	var cat0, cat1 Term
+	wantCat := false
+	if u.Contract != nil && u.Contract.Opts["bytescat"] != "" && u.typeKey(elem) == "uint8" {
+		// the content of the result as a byte string: old content ++ appended bytes (a fact of Go's
+		// append; stated on request because it saves the solvers an extensionality argument)
+		wantCat = true
+		cat0 = u.bytesOf(st, s)
+		if args[1].T.Sort == "Bytes" {
+			cat1 = args[1].T
+		} else {
+			cat1 = u.bytesOf(st, args[1].T)
+		}
+	}
 	st.heaps[name] = u.def(ite(eq(n, intLit(0)), h, sto(h, tgtArr, row)))
+	if wantCat {
+		u.assume(tTrue, eq2(u.bytesOf(st, res), app("Bytes", "bcat", cat0, cat1)))
+	}
 	return Val{T: res, Typ: resT}
 }
 
